@@ -22,7 +22,7 @@ v("C01", "refresh-reads-revision-outside-snapshot", HB,
   "rev, updateErr := e.kv.Update(e.key, payloadBytes, e.revision.Load(), opts...)",
   ["C01-R3"], "the refresh goroutine re-reads the revision field without the mutex instead of using the snapshot")
 v("C01", "delete-without-ownership-check", KV,
-  "ownedRev, owned := e.ownsRecord(termToken)\n\tif !owned {", "ownedRev, owned := uint64(0), termToken != \"\"\n\tif !owned {", ["C01-R6"], "StopWithContext deletes the key without verifying ownership")
+  "ownedRev, owned := e.ownsRecord(termToken)\n\t\tif !owned {", "ownedRev, owned := uint64(0), termToken != \"\"\n\t\tif !owned {", ["C01-R6"], "StopWithContext deletes the key without verifying ownership")
 v("C01", "observe-leader-while-leader", KV,
   "\tif e.isLeader.Load() {\n\t\treturn\n\t}\n\te.leaderID.Store(id)", "\te.leaderID.Store(id)",
   ["C01-R4"], "observeLeader stores observed revisions even while the instance is leader")
@@ -214,6 +214,11 @@ v("C12", "health-demotion-unbound", HB, "\te.demoteTerm(ctx, \"health_check_fail
 v("C15", "adapter-error-wrapped-with-operation", EL, "\tnatsEntry, err := a.kv.Get(key)\n\tif err != nil {\n\t\treturn nil, err\n\t}", "\tnatsEntry, err := a.kv.Get(key)\n\tif err != nil {\n\t\treturn nil, NewElectionError(\"kv_get\", key, \"get failed\", err)\n\t}", ["C15-R5"], "the adapter wraps the client's error with the key")
 
 v("C02", "context-end-demotes-only-if-election-ended", HB, "func (e *kvElection) handleHeartbeatContextDone(ctx context.Context) {\n\te.demoteTerm(ctx, \"context_cancelled\")\n}", "func (e *kvElection) handleHeartbeatContextDone(ctx context.Context) {\n\te.mu.RLock()\n\trunning := e.ctx != nil && e.ctx.Err() == nil\n\te.mu.RUnlock()\n\tif running {\n\t\treturn\n\t}\n\te.demoteTerm(ctx, \"context_cancelled\")\n}", ["C02-R6"], "the loop's final demotion is skipped while the election context is live: a claim without heartbeats after cancel + Start")
+
+v("C09", "refused-delete-not-retried", KV, "\tfor attempt := 0; attempt < ownRecordDeleteAttempts; attempt++ {", "\tfor attempt := 0; attempt < 1; attempt++ {", ["C09-R10"], "a conditional delete refused because the own heartbeat landed is not retried")
+v("C17", "jittered-value-converted-unbounded", RT, "\tif finalBackoff >= float64(math.MaxInt64) {\n\t\treturn time.Duration(math.MaxInt64)\n\t}\n", "", ["C17-R5"], "the jittered value can exceed 2^63 before the conversion")
+v("C17", "nan-blind-lower-bound", RT, "\tif !(finalBackoff >= 0) {\n\t\tfinalBackoff = backoff\n\t}\n\tif !(finalBackoff >= 0) {", "\tif finalBackoff < 0 {\n\t\tfinalBackoff = backoff\n\t}\n\tif finalBackoff < 0 {", ["C17-R5"], "a NaN jitter passes the lower bound")
+v("C18", "periodic-check-needs-known-leader", W, "\tif currentLeaderID != newLeaderID {\n\t\tif currentLeaderID != \"\" {", "\tif currentLeaderID != \"\" && currentLeaderID != newLeaderID {\n\t\tif currentLeaderID != \"\" {", ["C18-R5"], "a follower without a known leader never records the one the periodic check reads")
 
 def main():
     only = set(sys.argv[1:])
